@@ -65,7 +65,13 @@ func extend(t *rapid.T, w *sim.World, side *sim.Replica, certMode func(blk *type
 		}
 	}
 	if cert == nil {
-		cert = w.MakeCert(side, blk, mode)
+		m := mode
+		if mode == sim.CertValid && rapid.IntRange(0, 1).Draw(t, "everyMemberSigns") == 1 {
+			// a genuine certificate may carry more than the bare quorum: the votes of members that leave the
+			// committee in this very block are genuine votes for it
+			m = sim.CertValidAll
+		}
+		cert = w.MakeCert(side, blk, m)
 	}
 	if err := side.AddBlock(blk); err != nil {
 		t.Fatalf("%s refuses its own honest block %s: %v", side.Name, sim.BlockDesc(blk), err)
